@@ -537,15 +537,29 @@ func (p *prover) lenBounds(X ssa.Value, b *ssa.BasicBlock) (int64, int64) {
 			hi = ghi
 		}
 	}
+	// a slice made with a bounded length
+	if ms, ok := root.(*ssa.MakeSlice); ok && p.sliceDepth < 3 {
+		q := *p
+		q.sliceDepth++
+		if e := q.eval(ms.Len, ms.Block(), 0); e.ok {
+			l0, h0 := int64(0), int64(0)
+			if e.base != nil {
+				l0, h0 = q.lenBounds(e.base, ms.Block())
+			}
+			if l0+e.lo > lo {
+				lo = l0 + e.lo
+			}
+			if h0 < inf && e.hi < inf && h0+e.hi < hi {
+				hi = h0 + e.hi
+			}
+		}
+	}
 	// regexp knowledge
 	if call, ok := root.(*ssa.Call); ok {
-		// `parts != nil` is the same test as `len(parts) != 0` for a sub-match result
-		nonNil := p.nonNilFact(root, b)
-		if f := call.Call.StaticCallee(); f != nil && isFindSubmatch(origin(f).String()) && (lo >= 1 || nonNil) {
-			if re := p.c.regexpOf(call.Call.Args[0]); re != nil {
-				n := int64(re.MaxCap() + 1)
-				return n, n
-			}
+		// a sub-match result, possibly handed through helpers of the module, is nil or has one entry per group + 1;
+		// `parts != nil` is the same test as `len(parts) != 0` where every non-nil form is the regexp's own result
+		if n, strict, ok := p.c.submatchShape(call, 0); ok && n > 0 && (lo >= 1 || strict && p.nonNilFact(root, b)) {
+			return n, n
 		}
 	}
 	// subject of a successful match: len >= shortest word
@@ -1349,6 +1363,68 @@ func hullOf(list []*precond) *precond {
 }
 
 var _ = strings.HasPrefix
+
+// submatchShape: v is nil or a slice of exactly n elements (n = 0: only nil seen). Recognised: the result of
+// FindSubmatch/FindStringSubmatch on a known regexp, the nil constant, a merge of such values, the single result of a
+// function of the module all of whose returns are such values with the same n, and make([]T, len(m)) for such an m.
+// strict: a non-nil v has n elements (false once a make is involved: an empty non-nil slice is possible).
+func (c *Ctx) submatchShape(v ssa.Value, depth int) (n int64, strict bool, ok bool) {
+	if depth > 4 {
+		return 0, false, false
+	}
+	merge := func(vals []ssa.Value) (int64, bool, bool) {
+		var n int64
+		strict := true
+		for _, x := range vals {
+			m, s, ok := c.submatchShape(x, depth+1)
+			if !ok || m != 0 && n != 0 && m != n {
+				return 0, false, false
+			}
+			if m != 0 {
+				n = m
+			}
+			strict = strict && s
+		}
+		return n, strict, true
+	}
+	switch x := v.(type) {
+	case *ssa.Const:
+		if x.Value == nil {
+			return 0, true, true
+		}
+	case *ssa.Phi:
+		return merge(x.Edges)
+	case *ssa.MakeSlice:
+		if l, isCall := x.Len.(*ssa.Call); isCall {
+			if bi, isB := l.Call.Value.(*ssa.Builtin); isB && bi.Name() == "len" && len(l.Call.Args) == 1 {
+				if m, _, ok := c.submatchShape(l.Call.Args[0], depth+1); ok && m > 0 {
+					return m, false, true
+				}
+			}
+		}
+	case *ssa.Call:
+		f := x.Call.StaticCallee()
+		if f == nil {
+			return 0, false, false
+		}
+		if isFindSubmatch(origin(f).String()) {
+			if re := c.regexpOf(x.Call.Args[0]); re != nil {
+				return int64(re.MaxCap() + 1), true, true
+			}
+			return 0, false, false
+		}
+		if inRepo(f) && f.Signature.Results().Len() == 1 {
+			var rets []ssa.Value
+			for _, r := range Returns(origin(f)) {
+				rets = append(rets, ReturnValues(r)[0])
+			}
+			if len(rets) > 0 {
+				return merge(rets)
+			}
+		}
+	}
+	return 0, false, false
+}
 
 // isFindSubmatch: the two sibling forms (bytes / string subject) with the same length contract.
 func isFindSubmatch(name string) bool {
